@@ -50,8 +50,15 @@ JudgeDilithium(e) ==
        \o When(e.mn # Render(Enc(e.seed), WordList), "mnemonic is not the encoding of the seed")
        \o When(e.hex # HexOf(e.seed), "hex seed is not 0x || hex(seed)")
 
+\* original and re-created object alive in one process, signing alternately (taller trees)
+JudgeTall(e) ==
+  IF e.res # "ok" THEN <<"re-creating the key from its exported secret was refused">>
+  ELSE When(e.pk1 # e.pk0, "re-created key has a different public key")
+       \o When(e.sigs1 # e.sigs0, "original and re-created key sign differently when both are used in one process")
+
 Judge(e) ==
-  CASE e.ev = "recover" /\ e.scheme = "xmss" -> JudgeXmss(e)
+  CASE e.ev = "recovertall" -> JudgeTall(e)
+    [] e.ev = "recover" /\ e.scheme = "xmss" -> JudgeXmss(e)
     [] e.ev = "recover" /\ e.scheme = "dilithium" -> JudgeDilithium(e)
     [] e.ev = "descpath" -> JudgeDescPath(e)
     [] OTHER -> <<"unknown event">>
